@@ -30,7 +30,7 @@
 enum { O_SET, O_INC, O_DEC, O_ADD, O_SUB, O_OR, O_AND, O_ADD_RETURN, O_SUB_RETURN, O_XCHG, O_CMPXCHG_OK, O_CMPXCHG_FAIL, O_READ, O_EXPR, O_NOPS };
 static const char *const opname[] = { "set", "inc", "dec", "add", "sub", "or", "and", "add_return", "sub_return", "xchg",
 	"cmpxchg(match)", "cmpxchg(mismatch)", "read",
-	"type and sign of the value-returning expressions on an address of the form base + index" };
+	"sign of the value-returning expressions on an address of the form base + index" };
 
 /* one function per (type, op): ordinary store, the operation, ordinary load; *ret = value of the expression, if any */
 #define DEFS(T, tn)											\
@@ -60,16 +60,17 @@ static NOINL uint64_t f_cmpfail_##tn(void *p, uint64_t i, uint64_t v, uint64_t *
 { T *c = p; *c = (T) i; *r = (uint64_t) (T) uatomic_cmpxchg(c, (T) (i + 1), (T) v); return (uint64_t) *c; } \
 static NOINL uint64_t f_read_##tn(void *p, uint64_t i, uint64_t v, uint64_t *r)			\
 { T *c = p; (void) v; *c = (T) i; *r = (uint64_t) (T) uatomic_read(c); return (uint64_t) *c; }		\
-/* the value of each expression has the type of the cell (bits 0-4) and, for xchg, its sign (bit 5) */	\
+/* the value of each value-returning expression, used as it stands on an address of the form base + index, has the	\
+ * sign of the cell's type (bit n: operation n disagrees) */							\
 static NOINL uint64_t f_expr_##tn(void *p, uint64_t i, uint64_t v, uint64_t *r)			\
-{ T *c = p; size_t z = (size_t) (i & 0); unsigned bad = 0;						\
+{ T *c = p; size_t z = (size_t) (i & 0); unsigned bad = 0; int neg = (T) i < 0;				\
   *c = (T) i;												\
-  if (sizeof(uatomic_read(c + z)) != sizeof(T)) bad |= 1;						\
-  if (sizeof(uatomic_xchg(c + z, (T) v)) != sizeof(T)) bad |= 2;					\
-  if (sizeof(uatomic_cmpxchg(c + z, (T) i, (T) v)) != sizeof(T)) bad |= 4;				\
-  if (sizeof(uatomic_add_return(c + z, (T) v)) != sizeof(T)) bad |= 8;					\
-  if (sizeof(uatomic_sub_return(c + z, (T) v)) != sizeof(T)) bad |= 16;				\
-  if ((uatomic_xchg(c + z, (T) v) < 0) != ((T) i < 0)) bad |= 32;					\
+  if ((uatomic_read(c + z) < 0) != neg) bad |= 1;							\
+  if ((uatomic_xchg(c + z, (T) i) < 0) != neg) bad |= 2;						\
+  if ((uatomic_cmpxchg(c + z, (T) i, (T) i) < 0) != neg) bad |= 4;					\
+  if ((uatomic_add_return(c + z, (T) 0) < 0) != neg) bad |= 8;						\
+  if ((uatomic_sub_return(c + z, (T) 0) < 0) != neg) bad |= 16;					\
+  uatomic_set(c + z, (T) v);										\
   *r = bad; return (uint64_t) *c; }
 
 DEFS(signed char, sc) DEFS(unsigned char, uc) DEFS(short, ss) DEFS(unsigned short, us)
@@ -175,12 +176,10 @@ int main(int argc, char **argv)
 				if (got != want)
 					printf("cell holds %#llx, expected %#llx; ", (unsigned long long) got, (unsigned long long) want);
 				if (has_ret && ret != wret && op == O_EXPR)
-					printf("expression has the wrong %s%s%s%s%s%s%s; ",
-						(ret & 31) ? "type (sizeof differs from the cell's):" : "",
+					printf("'(expression < 0)' disagrees with the sign of the value held by the cell for:%s%s%s%s%s; ",
 						(ret & 1) ? " uatomic_read" : "", (ret & 2) ? " uatomic_xchg" : "",
 						(ret & 4) ? " uatomic_cmpxchg" : "", (ret & 8) ? " uatomic_add_return" : "",
-						(ret & 16) ? " uatomic_sub_return" : "",
-						(ret & 32) ? " sign (uatomic_xchg(...) < 0 disagrees with the old value)" : "");
+						(ret & 16) ? " uatomic_sub_return" : "");
 				else if (has_ret && ret != wret)
 					printf("returned %#llx, expected %#llx; ", (unsigned long long) ret, (unsigned long long) wret);
 				if (k < (int) sizeof(buf))
